@@ -33,6 +33,8 @@ import collections
 stat = collections.OrderedDict()
 for f in sorted(glob.glob(V + "/seeded/*/meta.json")):
     sid = f.split("/")[-2]
+    if sid.startswith("FREE"):     # free-form round: listed separately (all twenty checks were run)
+        continue
     m = json.load(open(f))
     P = m.get("property") or sid.split("-")[0]
     own = lambda checks: (checks or {}).get(P) or (list((checks or {}).values()) or [None])[0]
